@@ -201,22 +201,37 @@ def tlc_expect_ok(ctx, module, **kw):
     return r
 
 
+def harness_dir(ctx):
+    """The harness module replaces github.com/irai/packet => /repo.  When VERIF_REPO points at a
+    scratch copy of the repository (mutation testing), build from a scratch copy of the harness
+    whose go.mod points there instead."""
+    if os.path.realpath(REPO) == "/repo":
+        return HARNESS
+    d = os.path.join(ctx.scratch, "harness")
+    if not os.path.exists(d):
+        shutil.copytree(HARNESS, d, ignore=shutil.ignore_patterns("bin"))
+        gm = open(os.path.join(d, "go.mod")).read().replace("=> /repo", "=> " + os.path.realpath(REPO))
+        open(os.path.join(d, "go.mod"), "w").write(gm)
+    return d
+
+
 def go_build(ctx, pkg, race=False, tags="verif"):
-    """Build /verif/harness/cmd/<pkg> against /repo's working tree. Returns binary path."""
+    """Build /verif/harness/cmd/<pkg> against the repository working tree. Returns binary path."""
     out = os.path.join(ctx.scratch, "bin", pkg + ("-race" if race else ""))
     if os.path.exists(out):
         return out
     os.makedirs(os.path.dirname(out), exist_ok=True)
-    gosum = os.path.join(HARNESS, "go.sum")
+    hd = harness_dir(ctx)
+    gosum = os.path.join(hd, "go.sum")
     if not os.path.exists(gosum):
         shutil.copy(os.path.join(REPO, "go.sum"), gosum)
     cmd = ["go", "build", "-tags", tags]
     if race:
         cmd.append("-race")
     cmd += ["-o", out, "./cmd/" + pkg]
-    p = sh(cmd, cwd=HARNESS, timeout=900, check=False)
+    p = sh(cmd, cwd=hd, timeout=900, check=False)
     if p.returncode != 0:
-        raise InfraError("harness build failed (does /repo still compile with -tags verif?):\n" + p.stdout[-6000:])
+        raise InfraError("harness build failed (does the repository still compile with -tags verif?):\n" + p.stdout[-6000:])
     return out
 
 
@@ -239,10 +254,17 @@ def run_driver(ctx, binary, args, timeout=600, stdin=None, env=None, ok_codes=(0
 
 
 def load_known():
+    """known_findings.json plus known_findings.d/*.json (one file per property family)."""
+    out = []
     p = os.path.join(VERIF, "known_findings.json")
-    if not os.path.exists(p):
-        return []
-    return json.load(open(p))
+    if os.path.exists(p):
+        out += json.load(open(p))
+    d = os.path.join(VERIF, "known_findings.d")
+    if os.path.isdir(d):
+        for f in sorted(os.listdir(d)):
+            if f.endswith(".json"):
+                out += json.load(open(os.path.join(d, f)))
+    return out
 
 
 class Ctx:
